@@ -8,3 +8,4 @@ void reg_range();
 void reg_parser();
 void reg_sock();
 void reg_srv();
+void reg_copier();
